@@ -276,6 +276,11 @@ func (m *Matcher) match(n *gen.Node, pos int, caps Caps, dir int, k func(int, Ca
 		if look.Ahead {
 			d = 1
 		}
+		if n.Bare && look.Ahead && !look.Neg {
+			// the bare spelling (?(expr)yes|no) is not a look-ahead but a zero-width test in the
+			// direction the enclosing context runs in (backwards inside a look-behind or under RightToLeft)
+			d = dir
+		}
 		var rc Caps
 		ok := m.match(look.Kids[0], pos, caps, d, func(p2 int, c2 Caps) bool { rc = c2; return true })
 		cond := ok != look.Neg
